@@ -459,7 +459,11 @@ func (s *splitter) node(m *model.Node, keyLeaves map[string]bool, depth int) (*m
 				a.Leaf[name], b.Leaf[name] = cloneVal(v), cloneVal(v)
 				continue
 			}
-			switch s.pick("leaf", 30, 30, s.bw(25), s.cw(15)) {
+			wConf := s.cw(15)
+			if s.rare && (isBinLeaf(f) || f.Type.VKind() == model.KEmpty) {
+				wConf = 15 // the conflict boundary of binary leaves is a class of its own
+			}
+			switch s.pick("leaf", 30, 30, s.bw(25), wConf) {
 			case 0:
 				a.Leaf[name] = cloneVal(v)
 			case 1:
